@@ -379,6 +379,7 @@ class ClassObject(Object, Callable):
         attrs = {}
         for b in reversed(self.bases):
             attrs.update(b._attrs)
+        attrs.update(self.scope.top.assigns(self.ctx).get(self, {}))
         attrs.update(self._cls_attrs)
         return attrs
 
